@@ -1251,7 +1251,7 @@ class IPv4Obj(object):
 
         orig_prefixlen = self.prefixlen
         total = self.as_decimal - val
-        if total >= IPV4_MAXINT:
+        if total > IPV4_MAXINT:
             raise RequirementFailure("Max IPv4 integer exceeded")
         if total < 0:
             raise RequirementFailure("Min IPv4 integer exceeded")
@@ -1980,7 +1980,7 @@ class IPv6Obj(object):
 
         orig_prefixlen = self.prefixlen
         total = self.as_decimal - val
-        if total >= IPV6_MAXINT:
+        if total > IPV6_MAXINT:
             raise RequirementFailure("Max IPv6 integer exceeded")
         if total < 0:
             raise RequirementFailure("Min IPv6 integer exceeded")
